@@ -401,10 +401,46 @@ func modelEdits(s seed, f func(kind string, x []byte)) {
 	}
 }
 
-// stacked applies k random byte/line edits inside the header region.
-func stacked(s seed, rng *rand.Rand, k int) []byte {
+// insertSet is what stacked edits insert or substitute: the interesting bytes
+// of the single edits plus digits, signs and letters a lenient parser might
+// swallow (leading zeros, signs, case).
+var insertSet = append(append([]byte(nil), interesting...), '0', '1', '2', '+', '.', 'v', 'V', 'a', 'e', 'x', '_', ',')
+
+// stackedOnLine makes the first edit an insertion (ins) or a deletion inside
+// header line li of the seed, then applies k-1 further random edits anywhere in
+// the header region; so every header line of every seed, the intro included,
+// meets insertions and deletions and not only substitutions.
+func stackedOnLine(s seed, rng *rand.Rand, li int, ins bool, k int) []byte {
+	lines := splitLines(s.data[:s.hlen])
+	off := 0
+	for i := 0; i < li; i++ {
+		off += len(lines[i])
+	}
+	l := len(lines[li])
 	x := append([]byte(nil), s.data...)
 	n := s.hlen
+	if ins {
+		p := off + rng.Intn(l+1)
+		if rng.Intn(3) == 0 && l > 0 { // next to the end of the line
+			p = off + l - 1 - rng.Intn(min(l, 2))
+		}
+		c := insertSet[rng.Intn(len(insertSet))]
+		x = append(x[:p], append([]byte{c}, x[p:]...)...)
+		n++
+	} else if l > 0 {
+		p := off + rng.Intn(l)
+		x = append(x[:p], x[p+1:]...)
+		n--
+	}
+	return stackedFrom(x, n, rng, k-1)
+}
+
+// stacked applies k random byte/line edits inside the header region.
+func stacked(s seed, rng *rand.Rand, k int) []byte {
+	return stackedFrom(append([]byte(nil), s.data...), s.hlen, rng, k)
+}
+
+func stackedFrom(x []byte, n int, rng *rand.Rand, k int) []byte {
 	for e := 0; e < k; e++ {
 		if n < 2 || n > len(x) {
 			break
@@ -420,9 +456,9 @@ func stacked(s seed, rng *rand.Rand, k int) []byte {
 			x = append(x[:i+1], x[i:]...)
 			n++
 		case 3:
-			x[i] = interesting[rng.Intn(len(interesting))]
+			x[i] = insertSet[rng.Intn(len(insertSet))]
 		case 4:
-			c := interesting[rng.Intn(len(interesting))]
+			c := insertSet[rng.Intn(len(insertSet))]
 			x = append(x[:i], append([]byte{c}, x[i:]...)...)
 			n++
 		case 5: // swap two lines
@@ -458,6 +494,49 @@ func stacked(s seed, rng *rand.Rand, k int) []byte {
 		}
 	}
 	return x
+}
+
+// runLineStacked: for every header line of every seed, perLine stacked edits
+// starting with an insertion and perLine starting with a deletion in that line.
+func runLineStacked(o *oracle, seeds []seed, perLine int) {
+	r := o.r
+	lines := int64(0)
+	for _, s := range seeds {
+		lines += int64(len(splitLines(s.data[:s.hlen])))
+	}
+	r.Set("part_ii_stacked_per_line", map[string]any{"header_lines_of_all_seeds": lines, "per_line": fmt.Sprintf("%d stacked edits starting with an insertion + %d starting with a deletion in that line, then 0-2 random edits anywhere", perLine, perLine)})
+	mon.Par(len(seeds), func(i int) {
+		s := seeds[i]
+		r.Guard("line-stacked "+s.name, func() {
+			st := newStats("mutation")
+			rng := r.RNG("c07-line-stacked-" + s.name)
+			ls := splitLines(s.data[:s.hlen])
+			for li := range ls {
+				if len(ls[li]) == 0 {
+					continue
+				}
+				for c := 0; c < 2*perLine; c++ {
+					ins := c%2 == 0
+					k := 1 + rng.Intn(3)
+					x := stackedOnLine(s, rng, li, ins, k)
+					acc, _ := o.check(st, x, lvBasicAll, 64)
+					cls := "line-stacked-delete"
+					if ins {
+						cls = "line-stacked-insert"
+					}
+					if li == 0 {
+						cls += "(intro)"
+					}
+					if acc {
+						st.tab("mutation_accepted", cls)
+					} else {
+						st.tab("mutation_rejected", cls)
+					}
+				}
+			}
+			st.merge(r)
+		})
+	})
 }
 
 func runMutations(o *oracle, seeds []seed, nStacked int) {
